@@ -162,7 +162,8 @@ class Check(object):
             if sig in seen_sigs:
                 continue
             seen_sigs.add(sig)
-            path = replay_mod.write_script(det, os.path.join(ROOT, 'replays'))
+            path = replay_mod.write_script(det, os.environ.get('VERIF_REPLAY_DIR') or
+                                           os.path.join(ROOT, 'replays'))
             env = dict(os.environ)
             env['VERIF_REPO'] = repo.REPO
             try:
@@ -232,8 +233,9 @@ class Check(object):
         ev = {'property_id': self.prop, 'tier': self.tier, 'seed': self.seed,
               'level': 'model_checking', 'coverage': cov, 'assumptions': self.assumptions,
               'wall_s': round(wall, 2), 'violations': len(reported)}
-        os.makedirs(os.path.join(ROOT, 'evidence'), exist_ok=True)
-        with open(os.path.join(ROOT, 'evidence', '%s.json' % self.prop), 'w') as f:
+        evdir = os.environ.get('VERIF_EVIDENCE_DIR') or os.path.join(ROOT, 'evidence')
+        os.makedirs(evdir, exist_ok=True)
+        with open(os.path.join(evdir, '%s.json' % self.prop), 'w') as f:
             json.dump(ev, f, indent=1, default=str)
         print('[%s] %s wall=%.1fs paths=%d obligations=%d/%d' % (
             self.prop, {0: 'HELD within bounds', 1: 'VIOLATION', 2: 'INCONCLUSIVE'}[status], wall,
